@@ -92,6 +92,14 @@ CLAIMS['C30'] = dict(
          'decided under C13. Thorough tier applies the rule to every other XML reader and lists what it finds.',
     design='3/C30', note='The <valid> range semantics and the not-null/not-bool argument reporting are numeric behaviour and are not decided.')
 
+CLAIMS['C36'] = dict(
+    technique='static analysis: field-sensitive taint analysis over the Python ast of cppcheck-htmlreport (sources: SAX attributes; sanitizers: html_escape/int; sinks: write() and the formatter\'s yielded lines) plus a record-filter lint',
+    text='Decides that every attribute of a parsed finding (msg, verbose, id, severity, cwe, info, classification, guideline, line) reaches an HTML sink '
+         'only through html_escape() or a numeric conversion, and that no loop over the collected findings skips a record (continue/filter) before the '
+         'index and per-file pages are written, including the unreadable-source paths. The unescaped message/id/severity/... flows of the pinned tree were '
+         'replayed (raw <script> in the page) and repaired by a fix: commit; the file-name flow is a recorded known finding.',
+    design='3/C36', note='Flow-insensitive (no path conditions); "exactly once" and the pygments rendering are not decided.')
+
 NOT_APPLICABLE = {
     'C01': 'soundness of inferred values vs. concrete executions of arbitrary programs; needs an executing/symbolic oracle, no structural necessary condition in valueflow.cpp',
     'C02': 'same as C01, for container sizes',
